@@ -50,8 +50,8 @@ def simple_spec(pred, exit=1, out='bug\n', err='', else_exit=0, else_out='ok\n',
 # ---- python evaluation of the same predicate language (independent of the C
 # implementation; used by self-tests and oracles) -------------------------
 def eval_pred(pred, text, set_loader=None):
-    toks = refreader.canon_fresh(
-        refreader.strip_comments(refreader.lex(text, tolerant=True)))
+    raw = refreader.strip_comments(refreader.lex(text, tolerant=True))
+    toks = refreader.canon_fresh(raw)
     td = refreader.fnv1a(toks)
 
     def balanced():
@@ -107,7 +107,9 @@ def eval_pred(pred, text, set_loader=None):
             with open(a[4:]) as f:
                 return ('%016x' % td) in {l.strip()[:16] for l in f}
         if a == 'scoped':
-            return scoped(toks)
+            # on the tokens as they are (as vcmd does): two fresh variables
+            # are two symbols
+            return scoped(raw)
         raise ValueError(a)
 
     st = []
